@@ -289,6 +289,15 @@ func checkMatchStyleAll(s *Segment) (bind string, capture int, ok bool) {
 // the same order as regexp's sub-matches.
 func constructMatchStyleRegex(s *Segment) (*regexp.Regexp, []string, error) {
 	binds := make([]string, 0, len(s.Elements))
+	bindSet := make(map[string]struct{}, len(s.Elements))
+	addBind := func(bind string, pos int) error {
+		if _, exists := bindSet[bind]; exists {
+			return errors.Errorf("duplicated bind parameter %q in position %d", bind, pos)
+		}
+		bindSet[bind] = struct{}{}
+		binds = append(binds, bind)
+		return nil
+	}
 	buf := bytes.NewBufferString("^")
 	for _, e := range s.Elements {
 		if e.Ident != nil {
@@ -297,7 +306,9 @@ func constructMatchStyleRegex(s *Segment) (*regexp.Regexp, []string, error) {
 			buf.WriteString(regexp.QuoteMeta(*e.Ident))
 			continue
 		} else if e.BindIdent != nil {
-			binds = append(binds, *e.BindIdent)
+			if err := addBind(*e.BindIdent, e.Pos.Offset); err != nil {
+				return nil, nil, err
+			}
 			buf.WriteString("(.+)")
 			continue
 		} else if e.BindParameters == nil || len(e.BindParameters.Parameters) == 0 {
@@ -309,7 +320,9 @@ func constructMatchStyleRegex(s *Segment) (*regexp.Regexp, []string, error) {
 				return nil, nil, errors.Errorf("segment has non-regex literal in position %d", e.Pos.Offset)
 			}
 
-			binds = append(binds, p.Ident)
+			if err := addBind(p.Ident, e.Pos.Offset); err != nil {
+				return nil, nil, err
+			}
 
 			// The expression must be valid on its own, and its own capturing groups must
 			// not shift the positions of sub-matches that are paired with bind parameters.
